@@ -32,6 +32,8 @@ pub struct Matched {
     /// records [start, first_file_end) live (at least partly) in the oldest kept file
     pub first_file_end: usize,
     pub first_file: Option<String>,
+    /// the archive names of the window that exist (whatever they hold)
+    pub archives_present: Vec<String>,
 }
 
 /// The stream oracle on a directory image.
@@ -110,7 +112,8 @@ pub fn stream_match(w: &World, snap: &Snapshot, recs: &[Rec8]) -> Result<Matched
                 acc += used[e - s];
                 e += 1;
             }
-            return Ok(Matched { start: s, first_file_end: e, first_file: kept.first().map(|k| k.0.clone()) });
+            let archives_present: Vec<String> = names.iter().filter(|n| *n != w.active_rel() && fl.contains_key(*n)).cloned().collect();
+            return Ok(Matched { start: s, first_file_end: e, first_file: kept.first().map(|k| k.0.clone()), archives_present });
         }
     }
     let listing: Vec<String> = fl.iter().map(|(k, v)| format!("{}={:?}", k, show_bytes(&decode_by_ext(k, v).unwrap_or_else(|_| b"<undecodable>".to_vec())))).collect();
@@ -131,7 +134,14 @@ pub fn loss_rule(w: &World, prev: &Matched, new: &Matched, recs: &[Rec8], snap: 
     if last_slot.is_none() {
         return Ok(());
     }
-    let allowed_from = if prev.first_file.is_some() && prev.first_file == last_slot { prev.first_file_end } else { prev.start };
+    // the archive at the last slot is only overwritten by the shift of the slot below it (or, for a window of
+    // one, by the rolled file itself): with a hole directly below it, it stays
+    let pushed_out = match &w.roller {
+        RollerK::Fixed { base, count, .. } if *count >= 2 => prev.archives_present.contains(&w.archive_rel(base + count - 2)),
+        RollerK::Fixed { .. } => true,
+        _ => false,
+    };
+    let allowed_from = if pushed_out && prev.first_file.is_some() && prev.first_file == last_slot { prev.first_file_end } else { prev.start };
     let lost: Vec<usize> = (prev.start..new.start.min(recs.len())).filter(|i| *i >= allowed_from && recs[*i].acked && !recs[*i].bytes.is_empty()).collect();
     if lost.is_empty() {
         return Ok(());
